@@ -48,6 +48,10 @@ pub fn run_corpus(
     replay: Option<Value>,
     out: &mut Outcome,
 ) {
+    // programs that did not survive the dev build (violation or removed); a program that builds in the dev profile
+    // and fails only in the release build is a violation whatever the reason: no legitimate change of strum makes
+    // acceptance depend on the build profile
+    let mut failed_in_dev: Option<BTreeSet<String>> = None;
     for profile in &plan.profiles {
         let mut cfg = CrateCfg::new(env, id, sub);
         cfg.strum_features = plan.strum_features.clone();
@@ -117,9 +121,10 @@ pub fn run_corpus(
                 // a plain program (documented constructs only, spelled the ordinary way) must build: whoever rejects
                 // it - rustc or the derive itself - the property's domain has shrunk
                 let plain = items.iter().find(|i| i.spec.name == en).map(|i| vmodel::plain::is_plain(&i.spec)).unwrap_or(false);
+                let release_only = *profile == "rel" && failed_in_dev.as_ref().map_or(false, |d| !d.contains(&en));
                 let is_violation = match plan.policy {
                     Policy::AllErrors => true,
-                    Policy::TaggedOnly => errs.iter().all(mine) || broken_expansion || plain,
+                    Policy::TaggedOnly => errs.iter().all(mine) || broken_expansion || plain || release_only,
                 };
                 if removed.insert(en.clone()) {
                     progress = true;
@@ -131,6 +136,8 @@ pub fn run_corpus(
                     out.violations.push(Violation {
                         kind: if broken_expansion && !errs.iter().all(mine) {
                             "compile:generated-code-rejected-by-rustc".to_string()
+                        } else if !errs.iter().all(mine) && release_only && !plain {
+                            "compile:fails-only-in-the-release-build".to_string()
                         } else if !errs.iter().all(mine) {
                             "compile:documented-input-rejected-by-derive".to_string()
                         } else {
@@ -153,6 +160,9 @@ pub fn run_corpus(
         if removed.len() * 4 > items.len() && items.len() >= 8 {
             out.inconclusive = Some(format!("{} of {} programs removed for compile errors", removed.len(), items.len()));
             return;
+        }
+        if *profile == "dev" {
+            failed_in_dev = Some(removed.clone());
         }
         let input = vrt::ShardInput {
             property: id.to_string(),
